@@ -1,6 +1,7 @@
 import Ibx.Gen.Lua
 import Ibx.Model.LuaGlue
 import Ibx.Model.Pool
+import Ibx.Model.LuaAfter
 /-
   T1 tie for C17 (Lua half): the facts regenerated from pkg/extension/luahost/*.go and pkg/extension/broker.go on every
   run are exactly what Ibx/Model/LuaGlue.lean and Ibx/Model/Pool.lean assume.
@@ -160,5 +161,101 @@ theorem pool_tie :
          ret := "make(chan gopher-lua.LValue, 10)" }] ∧
     otherStatesUsers = [] ∧
     poolSitesOutsideListeners = [("NewFromReader", 1, 1)] := by decide +kernel
+
+/-! ## after events (Model.LuaAfter) -/
+
+/-- BOTH after-listeners replace From by a pointer to a copy and To by a fresh slice of pointers to copies before the
+    value is wrapped for Lua (inline or through a helper called with the listener's own copy): the variant of
+    Model.LuaAfter the theorems of Props.C17After are about is the one the source has -/
+theorem afterHandlersDetach_tie :
+    afterHandlersDetach.map (fun p => (p.1, Model.LuaAfter.AddrSharing.ofString p.2)) =
+      [("AfterMessageDeleted", .detached), ("AfterMessageStored", .detached)] := by decide +kernel
+
+/-- the two Lua calls of the after-listeners: no result asked for (NRet: 0), protected, `defer putState` in front of the
+    call, one get and one put per invocation (Model.LuaAfter.poolSteps) -/
+theorem after_calls_tie :
+    (listeners.filter (fun l => ["AfterMessageDeleted", "AfterMessageStored"].contains l.event)).map (fun l => (l.event, l.fn)) =
+      [("AfterMessageDeleted", "After.MessageDeleted"), ("AfterMessageStored", "After.MessageStored")] ∧
+    (∀ l ∈ listeners.filter (fun l => ["AfterMessageDeleted", "AfterMessageStored"].contains l.event),
+      l.nret = some 0 ∧ l.protect = true ∧ l.deferPut = true ∧ l.gets = 1 ∧ l.puts = 1) := by decide +kernel
+
+def fieldTable (obj kind : String) : Option FieldTable := fieldTables.find? (fun t => t.obj == obj && t.kind == kind)
+
+def keysOf (obj kind : String) : List String :=
+  match fieldTable obj kind with
+  | some t => (t.rows.map (·.1)).eraseDups.filter (· != "*")
+  | none => ["?"]
+
+/-- messageMetadataIndex (Model.LuaAfter.readMeta): mailbox / id / subject as strings, date as Unix seconds, size as a
+    number, from as a wrapped address (whatever the pointer), to as a new table filled from the slice; any other key nil;
+    a receiver that is not a message_metadata is an argument error -/
+theorem metaIndex_tie : fieldTable "*event.MessageMetadata" "index" = some
+    { obj := "*event.MessageMetadata", kind := "index", selfChecked := true,
+      rows := [("*", [], "$0.Push(gopher-lua.LNil) => 1"),
+               ("date", [], "$0.Push(gopher-lua.LNumber(#.Date.Unix())) => 1"),
+               ("from", [], "$0.Push(fn->*gopher-lua.LUserData($0, #.From)) => 1"),
+               ("id", [], "$0.Push(gopher-lua.LString(#.ID)) => 1"),
+               ("mailbox", [], "$0.Push(gopher-lua.LString(#.Mailbox)) => 1"),
+               ("size", [], "$0.Push(gopher-lua.LNumber(#.Size)) => 1"),
+               ("subject", [], "$0.Push(gopher-lua.LString(#.Subject)) => 1"),
+               ("to", [], "loop #.To { [] |- [] => next }; $0.Push(&gopher-lua.LTable{}) => 1")] } := by decide +kernel
+
+/-- messageMetadataNewIndex (the `.set` case of Model.LuaAfter.stepOp): strings through CheckString(3), date / size through
+    CheckInt64(3), from through CheckUserData(3) + the *mail.Address test (else ArgError), to through CheckTable(3) into a
+    fresh slice; any other key raises -/
+theorem metaNewIndex_tie : fieldTable "*event.MessageMetadata" "newindex" = some
+    { obj := "*event.MessageMetadata", kind := "newindex", selfChecked := true,
+      rows := [("*", [], "$0.RaiseError(\"invalid index %q\", $0.CheckString(2)) => 0"),
+               ("date", [], "$0.CheckInt64(3); #.Date := time.Unix($0.CheckInt64(3), 0) => 0"),
+               ("from", ["!is($0.CheckUserData(3).Value, *mail.Address)"], "$0.CheckUserData(3); $0.ArgError(1, (\"address\" + \" expected\")); #.From := nil => 0"),
+               ("from", ["is($0.CheckUserData(3).Value, *mail.Address)"], "$0.CheckUserData(3); #.From := $0.CheckUserData(3).Value.(*mail.Address) => 0"),
+               ("id", [], "$0.CheckString(3); #.ID := $0.CheckString(3) => 0"),
+               ("mailbox", [], "$0.CheckString(3); #.Mailbox := $0.CheckString(3) => 0"),
+               ("size", [], "$0.CheckInt64(3); #.Size := $0.CheckInt64(3) => 0"),
+               ("subject", [], "$0.CheckString(3); #.Subject := $0.CheckString(3) => 0"),
+               ("to", [], "$0.CheckTable(3); #.To := make([]*mail.Address, 0, 16) => 0")] } ∧
+    toAssignForEach = "skip-non-addresses" := by decide +kernel
+
+/-- mailAddressIndex / mailAddressNewIndex (Model.LuaAfter.readAddr, the `.setAddr` case of stepOp) -/
+theorem addrTables_tie :
+    fieldTable "*mail.Address" "index" = some
+      { obj := "*mail.Address", kind := "index", selfChecked := true,
+        rows := [("*", [], "$0.Push(gopher-lua.LNil) => 1"),
+                 ("address", [], "$0.Push(gopher-lua.LString(#.Address)) => 1"),
+                 ("name", [], "$0.Push(gopher-lua.LString(#.Name)) => 1")] } ∧
+    fieldTable "*mail.Address" "newindex" = some
+      { obj := "*mail.Address", kind := "newindex", selfChecked := true,
+        rows := [("*", [], "$0.RaiseError(\"invalid index %q\", $0.CheckString(2)) => 0"),
+                 ("address", [], "$0.CheckString(3); #.Address := $0.CheckString(3) => 0"),
+                 ("name", [], "$0.CheckString(3); #.Name := $0.CheckString(3) => 0")] } := by decide +kernel
+
+/-- inbucketAfterIndex / inbucketBeforeIndex hand back what the slot holds through funcOrNil, nil for any other key; the
+    setters accept functions only (CheckFunction(3)) and raise for any other key -/
+theorem slotTables_tie :
+    (fieldTable "*InbucketAfterFuncs" "index").map (·.rows) = some
+      [("*", [], "$0.Push(gopher-lua.LNil) => 1"),
+       ("message_deleted", [], "$0.Push(fn->gopher-lua.LValue(#.MessageDeleted)) => 1"),
+       ("message_stored", [], "$0.Push(fn->gopher-lua.LValue(#.MessageStored)) => 1")] ∧
+    (fieldTable "*InbucketAfterFuncs" "newindex").map (·.rows) = some
+      [("*", [], "$0.RaiseError(\"invalid inbucket.after index %q\", $0.CheckString(2)) => 0"),
+       ("message_deleted", [], "$0.CheckFunction(3); #.MessageDeleted := $0.CheckFunction(3) => 0"),
+       ("message_stored", [], "$0.CheckFunction(3); #.MessageStored := $0.CheckFunction(3) => 0")] ∧
+    (fieldTable "*InbucketBeforeFuncs" "index").map (·.rows) = some
+      [("*", [], "$0.Push(gopher-lua.LNil) => 1"),
+       ("mail_from_accepted", [], "$0.Push(fn->gopher-lua.LValue(#.MailFromAccepted)) => 1"),
+       ("message_stored", [], "$0.Push(fn->gopher-lua.LValue(#.MessageStored)) => 1"),
+       ("rcpt_to_accepted", [], "$0.Push(fn->gopher-lua.LValue(#.RcptToAccepted)) => 1")] := by decide +kernel
+
+/-- the names the model dispatches on are the names of the tables, for reading and for assigning alike -/
+theorem field_names_tie :
+    keysOf "*event.MessageMetadata" "index" = Model.LuaAfter.metaFieldNames.map (·.1) ∧
+    keysOf "*event.MessageMetadata" "newindex" = Model.LuaAfter.metaFieldNames.map (·.1) ∧
+    keysOf "*mail.Address" "index" = Model.LuaAfter.addrFieldNames.map (·.1) ∧
+    keysOf "*mail.Address" "newindex" = Model.LuaAfter.addrFieldNames.map (·.1) ∧
+    keysOf "*InbucketAfterFuncs" "index" = Model.LuaAfter.slotNames.map (·.1) ∧
+    keysOf "*InbucketAfterFuncs" "newindex" = Model.LuaAfter.slotNames.map (·.1) := by decide +kernel
+
+/-- message_metadata.new() wraps a zero event.MessageMetadata (Model.LuaAfter.zeroMeta) -/
+theorem newMeta_tie : newMetaCtor = "[] |- [$0.Push(fn->*gopher-lua.LUserData($0, &event.MessageMetadata{}))] => 1" := by decide +kernel
 
 end Ibx.Tie.Lua
